@@ -12,14 +12,20 @@
 (* profiler inside the block (sys.setprofile): from then on the tracer    *)
 (* sees nothing, and on exit the profiler of BEFORE the block must still  *)
 (* be put back.                                                           *)
+(* The context manager is an OBJECT: it is created (trace_calls(...))      *)
+(* and entered (with cm:) in two steps, and the program may change the     *)
+(* profiler in between; "the previously installed profiler" is the one in  *)
+(* place when the block is ENTERED.                                        *)
 (***************************************************************************)
 EXTENDS Naturals, Sequences, FiniteSets, TLC
 
 CONSTANTS MaxCalls,
-          Dev_FlushEscapes    \* an exception raised by logger.flush() in the finally clause reaches the program
+          Dev_FlushEscapes,   \* an exception raised by logger.flush() in the finally clause reaches the program
+          Dev_PrevAtCreation  \* the profiler to put back is read when the context manager is created, not when it is entered
 
-VARIABLES phase,     \* "before" | "inside" | "after"
-          prev,      \* profiler installed before: "none" | "other"
+VARIABLES phase,     \* "before" | "created" | "inside" | "after"
+          prev,      \* profiler installed when the block was entered: "none" | "other"
+          captured,  \* (I-layer) the profiler the context manager will put back; "unset" until it reads it
           cur,       \* profiler installed now: "none" | "other" | "tracer" | "prog" (one the program installed itself)
           calls,     \* Seq of per-call fault: "ok" | "log" | "inspect"
           flushFails,\* BOOLEAN: flush() will raise
@@ -29,21 +35,34 @@ VARIABLES phase,     \* "before" | "inside" | "after"
           progExc,   \* the program's own exception leaving the block ("none" | "prog")
           seen,      \* exception the code around the block finally sees ("none" | "prog" | "flush")
           hist
-vars == <<phase, prev, cur, calls, flushFails, flushes, logged, escaped, progExc, seen, hist>>
+vars == <<phase, prev, captured, cur, calls, flushFails, flushes, logged, escaped, progExc, seen, hist>>
 
-Init == /\ phase = "before" /\ prev \in {"none", "other"} /\ cur = prev /\ calls = <<>>
+Init == /\ phase = "before" /\ prev \in {"none", "other"} /\ cur = prev /\ captured = "unset" /\ calls = <<>>
         /\ flushFails \in BOOLEAN /\ flushes = 0 /\ logged = 0 /\ escaped = {}
         /\ progExc = "none" /\ seen = "none" /\ hist = <<>>
 
-Enter == /\ phase = "before" /\ phase' = "inside" /\ cur' = "tracer"
-         /\ hist' = Append(hist, [op |-> "Enter", x |-> prev])
-         /\ UNCHANGED <<prev, calls, flushFails, flushes, logged, escaped, progExc, seen>>
+\* cm = trace_calls(...): nothing is installed yet
+Create == /\ phase = "before" /\ phase' = "created"
+          /\ captured' = IF Dev_PrevAtCreation THEN cur ELSE captured
+          /\ hist' = Append(hist, [op |-> "Create", x |-> cur])
+          /\ UNCHANGED <<prev, cur, calls, flushFails, flushes, logged, escaped, progExc, seen>>
+\* between creation and entry the program installs or removes a profiler (at most once: enough to tell the two readings apart)
+SetBefore(x) == /\ phase = "created" /\ x # cur
+                /\ ~\E i \in 1..Len(hist) : hist[i].op = "SetBefore"
+                /\ cur' = x
+                /\ hist' = Append(hist, [op |-> "SetBefore", x |-> x])
+                /\ UNCHANGED <<phase, prev, captured, calls, flushFails, flushes, logged, escaped, progExc, seen>>
+Enter == /\ phase = "created" /\ phase' = "inside" /\ cur' = "tracer"
+         /\ prev' = cur
+         /\ captured' = IF Dev_PrevAtCreation THEN captured ELSE cur
+         /\ hist' = Append(hist, [op |-> "Enter", x |-> cur])
+         /\ UNCHANGED <<calls, flushFails, flushes, logged, escaped, progExc, seen>>
 
 \* the program replaces the profiler inside the block: sys.setprofile(None) or a profiler of its own
 ProgSetsProfiler(x) == /\ phase = "inside" /\ cur = "tracer"
                        /\ cur' = x
                        /\ hist' = Append(hist, [op |-> "SetProfile", x |-> x])
-                       /\ UNCHANGED <<phase, prev, calls, flushFails, flushes, logged, escaped, progExc, seen>>
+                       /\ UNCHANGED <<phase, prev, captured, calls, flushFails, flushes, logged, escaped, progExc, seen>>
 
 \* one traced call completes; fault = what goes wrong inside the tracer callback for it
 CallF(fault) == /\ phase = "inside" /\ Len(calls) < MaxCalls
@@ -52,20 +71,20 @@ CallF(fault) == /\ phase = "inside" /\ Len(calls) < MaxCalls
                 \* try/except Exception in CallTracer.__call__: neither fault reaches the program
                 /\ logged' = IF fault = "ok" /\ cur = "tracer" THEN logged + 1 ELSE logged
                 /\ hist' = Append(hist, [op |-> "Call", x |-> fault])
-                /\ UNCHANGED <<phase, prev, cur, flushFails, flushes, escaped, progExc, seen>>
+                /\ UNCHANGED <<phase, prev, captured, cur, flushFails, flushes, escaped, progExc, seen>>
 
 Exit(how) == /\ phase = "inside" /\ phase' = "after"
              \* "sysexit": the program leaves by a BaseException that is not an Exception (SystemExit)
              /\ progExc' = IF how = "normal" THEN "none" ELSE "prog"
-             /\ cur' = prev                      \* sys.setprofile(old_trace) comes first
+             /\ cur' = captured                  \* sys.setprofile(old_trace) comes first
              /\ flushes' = flushes + 1
              /\ IF flushFails /\ Dev_FlushEscapes
                 THEN escaped' = escaped \cup {"flush"} /\ seen' = "flush"      \* replaces the program's own exception
                 ELSE escaped' = escaped /\ seen' = progExc'
              /\ hist' = Append(hist, [op |-> "Exit", x |-> how])
-             /\ UNCHANGED <<prev, calls, flushFails, logged>>
+             /\ UNCHANGED <<prev, captured, calls, flushFails, logged>>
 
-Next == Enter \/ (\E f \in {"ok", "log", "inspect"} : CallF(f)) \/ (\E x \in {"none", "prog"} : ProgSetsProfiler(x)) \/ (\E h \in {"normal", "exception", "sysexit"} : Exit(h))
+Next == Create \/ (\E x \in {"none", "other"} : SetBefore(x)) \/ Enter \/ (\E f \in {"ok", "log", "inspect"} : CallF(f)) \/ (\E x \in {"none", "prog"} : ProgSetsProfiler(x)) \/ (\E h \in {"normal", "exception", "sysexit"} : Exit(h))
 Spec == Init /\ [][Next]_vars
 
 \* C03
